@@ -78,7 +78,10 @@ TExit == /\ Is("exit") /\ Done /\ err = "" /\ Step /\ UNCHANGED <<vars, owed, mo
 
 \* the harness waited in vain: only acceptable where the model cannot move either
 Quiescent == ~ENABLED HiddenDriver /\ ~ENABLED WTake /\ whold = <<>> /\ owed = 0
-TTimeout == /\ Is("timeout") /\ Quiescent /\ Step /\ UNCHANGED <<vars, owed, mock>>
+\* ... except that a wait for the driver's exit cannot end in vain where the model has terminated (quit or end
+\* of input was sent before that wait began; Uci.tla is deadlock free and terminates, so Done is the only
+\* quiescent state the model can be in then)
+TTimeout == /\ Is("timeout") /\ Quiescent /\ (Ev.what = "exit" => ~Done) /\ Step /\ UNCHANGED <<vars, owed, mock>>
 
 \* end of scenario: remember that it was consumed completely
 TEnd ==
